@@ -5,7 +5,7 @@ cd /verif
 for id in "$@"; do
   for v in a b; do
     d=${BATCH:-/tmp/sb}/$id/out/$v; [ -f $d/patch.diff ] || { echo "$id-$v: no patch"; continue; }
-    case "${BATCH:-/tmp/sb}" in /tmp/sc) nv=$( [ $v = a ] && echo e || echo f );; /tmp/sd) nv=$( [ $v = a ] && echo g || echo h );; /tmp/se) nv=$( [ $v = a ] && echo i || echo j );; /tmp/sf) nv=$( [ $v = a ] && echo k || echo l );; /tmp/sg) nv=$( [ $v = a ] && echo m || echo n );; /tmp/sh) nv=$( [ $v = a ] && echo o || echo p );; /tmp/si) nv=$( [ $v = a ] && echo q || echo r );; /tmp/sj) nv=$( [ $v = a ] && echo s || echo t );; /tmp/sk) nv=$( [ $v = a ] && echo u || echo v );; *) nv=$( [ $v = a ] && echo c || echo d );; esac; t=seeded/$id-$nv
+    case "${BATCH:-/tmp/sb}" in /tmp/sc) nv=$( [ $v = a ] && echo e || echo f );; /tmp/sd) nv=$( [ $v = a ] && echo g || echo h );; /tmp/se) nv=$( [ $v = a ] && echo i || echo j );; /tmp/sf) nv=$( [ $v = a ] && echo k || echo l );; /tmp/sg) nv=$( [ $v = a ] && echo m || echo n );; /tmp/sh) nv=$( [ $v = a ] && echo o || echo p );; /tmp/si) nv=$( [ $v = a ] && echo q || echo r );; /tmp/sj) nv=$( [ $v = a ] && echo s || echo t );; /tmp/sk) nv=$( [ $v = a ] && echo u || echo v );; /tmp/sl) nv=$( [ $v = a ] && echo w || echo x );; *) nv=$( [ $v = a ] && echo c || echo d );; esac; t=seeded/$id-$nv
     [ -d $t ] && { echo "$t exists"; continue; }
     mkdir -p $t; cp $d/patch.diff $t/patch.diff
     [ -f $d/meta.json ] && cp $d/meta.json $t/meta.agent.json
